@@ -58,7 +58,7 @@ impl Check for C09 {
     }
     fn runs(&self, tier: Tier) -> u64 {
         match tier {
-            Tier::Quick => 200_000,
+            Tier::Quick => 500_000,
             Tier::Thorough => 40_000_000,
         }
     }
